@@ -9,8 +9,11 @@ any parameter forms, any number of ranges dictionaries / runs.
 `Built t s` says: simulation `s` was built from the requested blocks `t = (code, noise,
 decoder, error_rate)` with exactly those parameters (`instCode`/`instNoise`/`instDecoder`
 are the models of `_parse_*_dict` followed by the `id`/`params` properties).
+`BuiltSplit er t s` is the same for `method: splitting`: `s` was built from the requested
+`t = (code, noise, decoder)` and carries all requested rates `er`, sorted descending.
 -/
 import PanqecVerif.Proofs.SpecSims
+import PanqecVerif.Proofs.SpecSplit
 import PanqecVerif.Proofs.SpecInst
 
 namespace Panqec.C13
@@ -127,6 +130,64 @@ theorem splitting_one_simulation_per_code_noise_decoder (r : Ranges) (p : PV) (s
     sims.length = cr.length * nr.length * dr.length :=
   simsOfRanges_splitting_length r p sims hm h cr nr dr er hp
 
+/-- **`method = splitting`, tuple by tuple**: the simulations are, position by position in
+    `itertools.product(codes, error_models, decoder_range)` order, built from exactly the
+    requested (code, noise, decoder) blocks — class and parameters as requested — and every one
+    of them carries the whole list of requested error rates sorted descending
+    (`BuiltSplit`; the recorded decoder is the instantiation shared by the one-decoder-per-rate
+    list, whose members differ only in the implicit `error_rate` argument). -/
+theorem splitting_expands_to_code_noise_decoder_product (r : Ranges) (p : PV) (sims : List SimT)
+    (hm : methodOf r = .ok ("splitting", p)) (h : simsOfRanges r = .ok sims)
+    (cr nr dr : List Block) (er : List PV) (hp : parseAllRanges r = .ok (cr, nr, dr, er)) :
+    List.Forall₂ (BuiltSplit er) (product3 cr nr dr) sims :=
+  simsOfRanges_splitting_spec r p sims hm h cr nr dr er hp
+
+/-- … hence every requested (code, noise, decoder) combination gets a simulation, and a
+    simulation exists only for requested combinations (with distinct values on every axis:
+    exactly one each, by `splitting_one_simulation_per_code_noise_decoder`) -/
+theorem splitting_requested_tuples (r : Ranges) (p : PV) (sims : List SimT)
+    (hm : methodOf r = .ok ("splitting", p)) (h : simsOfRanges r = .ok sims)
+    (cr nr dr : List Block) (er : List PV) (hp : parseAllRanges r = .ok (cr, nr, dr, er)) :
+    (∀ c ∈ cr, ∀ n ∈ nr, ∀ d ∈ dr, ∃ s ∈ sims, BuiltSplit er (c, n, d) s) ∧
+    (∀ s ∈ sims, ∃ c ∈ cr, ∃ n ∈ nr, ∃ d ∈ dr, BuiltSplit er (c, n, d) s) := by
+  have hf := simsOfRanges_splitting_spec r p sims hm h cr nr dr er hp
+  have hmem : ∀ c n d, (c, n, d) ∈ product3 cr nr dr ↔ c ∈ cr ∧ n ∈ nr ∧ d ∈ dr := by
+    intro c n d
+    simp only [product3, List.mem_flatMap, List.mem_map]
+    constructor
+    · rintro ⟨a, ha, b, hb, x, hx, he⟩
+      cases he
+      exact ⟨ha, hb, hx⟩
+    · rintro ⟨ha, hb, hx⟩
+      exact ⟨c, ha, n, hb, d, hx, rfl⟩
+  constructor
+  · intro c hc n hn d hd
+    have hin := (hmem c n d).mpr ⟨hc, hn, hd⟩
+    obtain ⟨i, hi, hq⟩ := List.getElem_of_mem hin
+    have hi' : i < sims.length := by rw [← hf.length_eq]; exact hi
+    have hb := List.Forall₂.get hf hi hi'
+    simp only [List.get_eq_getElem] at hb
+    rw [hq] at hb
+    exact ⟨sims[i], List.getElem_mem hi', hb⟩
+  · intro s hs
+    obtain ⟨i, hi, rfl⟩ := List.getElem_of_mem hs
+    have hi' : i < (product3 cr nr dr).length := by rw [hf.length_eq]; exact hi
+    have hb := List.Forall₂.get hf hi' hi
+    rcases hq : (product3 cr nr dr)[i] with ⟨c, n, d⟩
+    have hin : (c, n, d) ∈ product3 cr nr dr := by rw [← hq]; exact List.getElem_mem hi'
+    simp only [List.get_eq_getElem] at hb
+    rw [hq] at hb
+    obtain ⟨hc, hn, hd⟩ := (hmem c n d).mp hin
+    exact ⟨c, hc, n, hn, d, hd, hb⟩
+
+/-- the rates a splitting simulation carries: every requested rate (as an exact number), as
+    often as it was requested, in non-increasing order (`np.sort(error_rates)[::-1]`) -/
+theorem splitting_rates_sorted_descending (er : List PV) (v : PV)
+    (h : ratesDescending er = .ok v) :
+    ∃ qs sorted : List Rat, er.mapM PV.toRat? = some qs ∧ v = .list (sorted.map PV.num) ∧
+      sorted.Perm qs ∧ sorted.Pairwise (fun a b => b ≤ a) :=
+  ratesDescending_spec er v h
+
 /-! ### list of ranges, explicit runs -/
 
 /-- a list of ranges dictionaries gives the concatenation, in order, of what each gives -/
@@ -202,6 +263,32 @@ example : (simsOfRanges exRanges).toOption.map List.length = some 6 := by decide
 example : (simsOfRanges exRanges).toOption.map
     (fun l => l.map fun s => (s.code.cls, s.code.params.map (·.1))) =
     some (List.replicate 6 ("Toric2DCode", ["L_x", "L_y", "L_z"])) := by decide +kernel
+
+/-- a splitting specification: 2 codes × 1 noise × 2 decoder settings, 3 rates given unsorted -/
+private def exSplit : Ranges :=
+  { exRanges with
+    method := some ⟨some "splitting", some (.dict [("n_init_runs", .int 10)])⟩,
+    decoder := some ⟨some "MatchingDecoder",
+      some (.list [.dict [("error_type", .str "X")], .dict [("error_type", .str "Z")]])⟩,
+    errorRate := some (.list [.num (1/8), .num (1/2), .num (1/4)]) }
+
+example : (methodOf exSplit).toOption.map (·.1) = some "splitting" := by decide +kernel
+
+/-- one simulation per (code, noise, decoder) = 4, in product order, with the requested
+    parameters … -/
+example : (simsOfRanges exSplit).toOption.map
+    (fun l => l.map fun s => (s.code.params.filterMap fun e => match e.2 with | .int i => some i | _ => none,
+      s.decoder.params.filterMap (fun e => match e.2 with | .str x => some x | _ => none))) =
+    some [([2, 3], ["X"]), ([2, 3], ["Z"]), ([4, 4], ["X"]), ([4, 4], ["Z"])] := by
+  decide +kernel
+
+/-- … each a splitting simulation -/
+example : (simsOfRanges exSplit).toOption.map (fun l => l.map (·.splitting)) =
+    some [true, true, true, true] := by decide +kernel
+
+/-- … and the rate list of the specification is accepted by `ratesDescending` (so
+    `splitting_rates_sorted_descending` applies: the three rates, sorted descending) -/
+example : ∃ v, ratesDescending [.num (1/8), .num (1/2), .num (1/4)] = .ok v := ⟨_, rfl⟩
 
 /-- the defect repaired by commit b2bb5d4 would make the registry theorem false -/
 example : ¬ ∀ e ∈ [(⟨"CODES", "Planar3DCode", "RotatedPlanar3DCode"⟩ : RegEntry)], e.key = e.cls := by
